@@ -479,6 +479,7 @@ func runC04(ctx *core.Ctx, idx int) *core.Result {
 	if idx < len(listKinds) {
 		forDotsCase(ctx, idx, res)
 		forWrittenHeaderCase(ctx, idx, res, "C04")
+		caseClauseCase(ctx, idx, res, "C04")
 	}
 	// the schema library's patterns with elisions (elisions on context lines reused on '+' lines, several
 	// elisions per line, elided parameter / result / field lists, nested statement elisions) on generated files
@@ -630,6 +631,81 @@ func forWrittenHeaderCase(ctx *core.Ctx, idx int, res *core.Result, prop string)
 		for i := range hs {
 			if mustStay[i] && !strings.Contains(funcs[i+1], fmt.Sprintf("target(%d)", i)) {
 				res.Violate(prop+"/false-positive/for-written-header", fmt.Sprintf("pattern 'for %s; ...; %s {' rewrote the body of loop%d, whose header differs from it: %s", p.init, p.post, i, core.Trunc(funcs[i+1], 160)), rep)
+				break
+			}
+		}
+	}
+}
+
+// caseClauseCase: 'case ...:' stands for a case clause with any expressions, not for 'default:' (another token; go/ast
+// merely gives it no expression list), and 'default:' in a pattern stands for nothing else. Reference-free: one switch
+// per function, the clause line of every function is looked at in the output.
+func caseClauseCase(ctx *core.Ctx, idx int, res *core.Result, prop string) {
+	type pc struct {
+		patch   string
+		rewrite func(clause string) string // what the clause line of a function has to be afterwards
+	}
+	sw := []string{"switch x {", "switch v := y.(type) {", "switch {"}[idx%3]
+	one := map[string]string{"switch x {": "1", "switch v := y.(type) {": "int", "switch {": "ok"}[sw]
+	two := map[string]string{"switch x {": "1, 2", "switch v := y.(type) {": "int, string", "switch {": "ok, !ok"}[sw]
+	zero := map[string]string{"switch x {": "0", "switch v := y.(type) {": "bool", "switch {": "never"}[sw]
+	pcs := []pc{
+		{"@@\n@@\n " + sw + "\n-case ...:\n+case " + zero + ", ...:\n   foo()\n }\n", func(c string) string {
+			if c == "default:" {
+				return c
+			}
+			return "case " + zero + ", " + strings.TrimPrefix(c, "case ")
+		}},
+		{"@@\n@@\n " + sw + "\n-default:\n+case " + zero + ":\n   foo()\n }\n", func(c string) string {
+			if c == "default:" {
+				return "case " + zero + ":"
+			}
+			return c
+		}},
+	}
+	p := pcs[(idx/3)%len(pcs)]
+	clauses := []string{"default:", "case " + one + ":", "case " + two + ":"}
+	var sb strings.Builder
+	sb.WriteString("package p\n\n")
+	for i, c := range clauses {
+		fmt.Fprintf(&sb, "func f%d() {\n\t%s\n\t%s\n\t\tfoo()\n\t}\n}\n\n", i, sw, c)
+	}
+	src := sb.String()
+	if !gen.Parses(src) {
+		res.Violate("harness-generator", "caseClauseCase: generated file does not parse\n"+src, nil)
+		return
+	}
+	runs := applyAPI(p.patch, []string{src})
+	if cli, _ := applyCLI(ctx, p.patch, []string{src}); len(cli) == 1 {
+		runs = append(runs, cli[0])
+	}
+	squash := func(s string) string { return strings.Join(strings.Fields(s), " ") }
+	for ri, run := range runs {
+		res.Evals++
+		res.Ob("case-clause-runs", 1)
+		res.Sig("case-clause", sw, (idx/3)%len(pcs), ri)
+		rep := replayFiles(p.patch, src, run.Out)
+		if run.Pan != "" {
+			res.Violate(prop+"/engine-panic:"+core.PanicSignature(run.Pan), run.Pan, rep)
+			continue
+		}
+		if run.Err != "" {
+			res.Violate(prop+"/engine-error", "case clause pattern: "+run.Err, rep)
+			continue
+		}
+		funcs := strings.Split(run.Out, "\nfunc ")
+		if len(funcs) != len(clauses)+1 {
+			res.Violate(prop+"/wrong-rewrite/case-clause", fmt.Sprintf("%d functions in, %d out", len(clauses), len(funcs)-1), rep)
+			continue
+		}
+		for i, c := range clauses {
+			want := squash(sw + " " + p.rewrite(c) + " foo()")
+			if got := squash(funcs[i+1]); !strings.Contains(got, want) {
+				cls := "/wrong-rewrite/case-clause"
+				if p.rewrite(c) == c {
+					cls = "/false-positive/case-clause"
+				}
+				res.Violate(prop+cls, fmt.Sprintf("switch with %q under pattern %q: want %q in %q", c, strings.Split(p.patch, "\n")[3], want, got), rep)
 				break
 			}
 		}
